@@ -148,6 +148,8 @@ class SymEx:
                 dyn = self.M.cls(self_term[1][1])          # Child().run(x): the receiver was constructed right here
             elif st.env.get('self') == self_term:
                 dyn = self.dyn.get(len(self.frames))
+        if dyn is None and getattr(fn, 'dyn_cls', None) is not None and not self.frames:
+            dyn = fn.dyn_cls
         if dyn is None and fn.cls is not None and not self.frames and not fn.is_static:
             dyn = fn.cls            # an entry point summarised for its own class: self is (at least) an instance of that class
         if dyn is not None and fn.cls is not None and fn.cls not in dyn.mro():
@@ -175,10 +177,14 @@ class SymEx:
                 env[vname] = ('tuple', tuple(extra))
             else:
                 env[vname] = ('var', vname)
+        if not self.frames and fn.cls is not None and fn.name != '__init__' and not fn.is_static and env.get('self') == ('var', 'self'):
+            # tables the constructor computes once and nobody rewrites (a timetable, a rate table) are known when a method is analysed
+            for loc_, val_ in self._ctor_tables(dyn or fn.cls).items():
+                st.heap.setdefault(loc_, val_)
         outer_env = st.env
         if closure_env is not None:
             env = dict({k: v for k, v in closure_env.items() if k not in env}, **env)
-        elif getattr(fn, 'parent', None) is not None and self.frames and self.frames[-1] is fn.parent:
+        elif getattr(fn, 'parent', None) is not None and self.frames and self.frames[-1].qn == fn.parent.qn:
             # a nested function sees the variables of the function that defines it
             env = dict({k: v for k, v in outer_env.items() if k not in env}, **env)
         st.env = env
@@ -207,6 +213,36 @@ class SymEx:
             out.append(p)
         for p in out:
             p.outer_env = outer_env
+        return out
+
+    def _ctor_tables(self, cls):
+        cache = self.M.__dict__.setdefault('_ctor_tables_cache', {})
+        if cls.qn in cache:
+            return cache[cls.qn]
+        cache[cls.qn] = {}
+        out = {}
+        init = cls.lookup('__init__')
+        if init is not None:
+            try:
+                sx = SymEx(self.M, policy=default_policy)
+                ps = [p for p in sx.run(init, dyn=cls) if p.outcome in ('fall', 'return')]
+            except Undecided:
+                ps = []
+            if len(ps) == 1:
+                heap = ps[0].heap
+                stored = {v: k for k, v in heap.items() if k[0] == 'attr' and k[1] == ('var', 'self') and v[0] == 'var'}
+                for k, v in heap.items():
+                    if not (k[0] == 'attr' and k[1] == ('var', 'self') and v[0] in ('dict', 'list', 'tuple', 'set') and v[1]):
+                        continue
+                    if self.M.field_written_outside_init(cls, k[2]):
+                        continue
+                    ok = True
+                    def rep(z):
+                        if z[0] == 'var' and z[1] in init.params:
+                            return stored.get(z, ('var', '@ctor:' + z[1]))
+                        return None
+                    out[k] = T.replace(v, rep)
+        cache[cls.qn] = out
         return out
 
     def run_entry(self, fn, args=None, self_term=None, dyn=None):
@@ -1273,6 +1309,8 @@ class SymEx:
                 if l == FALSE and r == TRUE:
                     return mk_not(x[1])
                 return ('ite', x[1], l, r)
+        if o in ('is', 'is not', '==', '!=') and a[0] == 'new' and b[0] == 'new' and a[1].startswith('enum:') and b[1].startswith('enum:'):
+            return (TRUE if a == b else FALSE) if o in ('is', '==') else (FALSE if a == b else TRUE)
         if o in ('is', 'is not', '==', '!=') and NONE in (a, b):
             other = b if a == NONE else a
             if other[0] in ('lambda', 'fn', 'nt', 'dict', 'list', 'tuple', 'set', 'str', 'num', 'new', 'comp', 'localfn', 'fmt', 'rat', 'cmp', 'not', 'and', 'or') or \
@@ -1407,6 +1445,20 @@ class SymEx:
                 continue
             if b[0] == 'var' and b[1].startswith('class:') and isinstance(e.ctx, ast.Load):
                 c_ = self.M.cls(b[1][6:])
+                if c_ is not None and e.attr in c_.class_attrs and any(bn.split('.')[-1] in ('Enum', 'IntEnum', 'IntFlag', 'Flag', 'StrEnum') for k_ in c_.mro() for bn in k_.base_names):
+                    # an enumeration member: IntEnum/StrEnum members are their values; plain Enum members are (name, value) records, equal only to themselves
+                    self.frames.append(self.M.module_func(c_.mod))
+                    try:
+                        r_ = self.ev(c_.class_attrs[e.attr], State())
+                    finally:
+                        self.frames.pop()
+                    if len(r_) == 1 and r_[0][1][0] in ('num', 'str', 'tuple'):
+                        lit = r_[0][1]
+                        if any(bn.split('.')[-1] in ('IntEnum', 'IntFlag', 'StrEnum') for k_ in c_.mro() for bn in k_.base_names):
+                            out.append((x, lit))
+                        else:
+                            out.append((x, ('new', 'enum:' + c_.name, (('name', ('str', e.attr)), ('value', lit)))))
+                        continue
                 m_ = c_.lookup(e.attr) if c_ is not None else None
                 if m_ is not None and not m_.is_property:
                     out.append((x, ('fn', m_.qn)))          # Class.method used as a value
@@ -2693,6 +2745,10 @@ class Valuation:
                 if t[1][1] == 'floor' and not (len(t[2]) == 2 and t[2][1] in (('str', 'D'), ('str', '1D'), ('str', 'd'))):
                     return None
                 return Fraction(math.floor(x))
+        if t[0] == 'call' and t[1] == ('ext', 'datetime.time') and not t[3] and 1 <= len(t[2]) <= 4 and all(a[0] == 'num' for a in t[2]):
+            # a literal time of day, in minutes after midnight (the unit the hour tables give `dt.time()` in)
+            a = [a_[1] for a_ in t[2]] + [Fraction(0)] * 4
+            return a[0] * 60 + a[1] + a[2] / 60 + a[3] / 60000000
         if t[0] == 'call' and t[1] == ('ext', 'pandas.Timedelta') and not t[2]:
             # a duration in days
             kws = dict(t[3])
